@@ -43,8 +43,11 @@ RULE = ('random typed expression trees (depth <= 6 quick / <= 9 thorough) plus t
         'dyadic grid. Non-trivial = the expression builds and its value at the sample point is '
         'not identically zero. distinct = distinct (field, class tree with leaves replaced by '
         'their kind and scalars by their class {0,1,-1,other}) among non-trivial cases.')
-TRUSTED = ['translator tools/extract/algebra_dispatch.py (AST of the overloads and constructors -> '
-           'Gen/AlgebraDispatch.lean; tiny grammar, anything else aborts)',
+TRUSTED = ['translator tools/extract/algebra_dispatch.py + dispatch_interp.py (the overload bodies are '
+           'executed per abstract operand class over a closed vocabulary -> canonical decision '
+           'tables in Gen/AlgebraDispatch.lean; source=AST, nothing is tabulated live; anything '
+           'outside the vocabulary aborts); the abstract semantics of the test atoms is that of '
+           'Guard.eval in Model/OpDispatch.lean',
            'Python operator-overload semantics (__op__/__rop__ order, NotImplemented, '
            '__array_priority__, reflected-first rule for subclasses) as encoded in `build`',
            'leaf operators are opaque in the theorems (EnvOK: flagged-linear leaves are linear, '
